@@ -471,10 +471,13 @@ def run_c15(tape, tier, res):
             kind = t.draw(4)
             if kind == 0:
                 out.append(("pop", t.between(1, 6)))
+            elif kind == 1 and t.chance(1, 3):
+                out.append(("level_end",))
             elif kind == 1:
                 out.append(("remainder", t.between(1, 8)))
             elif kind == 2 and t.chance(1, 2):
                 out.append(("limit", t.choice([1, 3, 40, 400, 5000])))
+
             elif kind == 2:
                 out.append(("omen", t.between(1, 2), t.between(1, 10)))
             elif t.chance(1, 2):
